@@ -3,3 +3,8 @@ open LhasaV.Props.C10
 #print axioms stripSlashes_no_lead
 #print axioms full_path_flat
 #print axioms full_path_relative
+#print axioms full_path_contained
+#print axioms dotdot_name_possible
+#print axioms guard_resolves_below_cwd
+#print axioms deferred_link_contained
+#print axioms deferred_link_refused
